@@ -231,3 +231,40 @@ Definition client_send_io (c : cstate) (typ len : N) (f : wfault) : option (list
       let (got, ok) := conn_write f hb in
       Some (if ok then got ++ repeat 0 (N.to_nat len) else got, ok)
   end.
+
+(* ---- a stream whose delivery pauses for longer than the read deadline.
+
+   The peer sends frames (header, payload) back to back; the connection hands them to the client in
+   [pieces], and between two pieces a Read returns a deadline error (the client has a timeout and
+   the bytes came too late), after which the remaining bytes do arrive.  io.ReadFull returns that
+   error with the k bytes it already holds consumed, so readHeader fails, and its callers
+   (checkInitialMessage, the read loop; likewise while a payload is read) give the connection up:
+   reading a header is all-or-nothing, and a failed read uses the connection up - nothing is decoded
+   from later bytes, which would start at an arbitrary offset inside a frame.
+
+   [parse_frames fuel s]: the headers the read side reports (logs, dispatches) for the byte stream
+   [s] that arrives without a pause: one per frame whose 10 header bytes are all there, in order,
+   until a header is rejected or the stream ends (inside a header: not reported; inside a payload:
+   the header was reported). *)
+Fixpoint parse_frames (fuel : nat) (s : list N) : list header :=
+  match fuel with
+  | O => []
+  | S f =>
+      if Nat.ltb (length s) 10 then []
+      else match hdr_decode (firstn 10 s) with
+           | HErr _ => []
+           | HOk h => h :: parse_frames f (skipn (10 + N.to_nat (h_len h)) s)
+           end
+  end.
+
+Definition frame_headers (s : list N) : list header := parse_frames (length s) s.
+
+(* the read side of a client in state [c] given the stream in [pieces] (a deadline error between
+   consecutive pieces): only what precedes the first pause is ever decoded.  A closed client reads
+   one more message.  (In PAwaitFirst the first frame is taken to be the connection-success event;
+   anything else ends Connect after that one header.) *)
+Definition client_paused_log (c : cstate) (pieces : list (list N)) : list header :=
+  if reading c then
+    let log := frame_headers (hd [] pieces) in
+    if c_closed c then firstn 1 log else log
+  else [].
